@@ -256,7 +256,8 @@ class World:
         k = json.dumps(e, sort_keys=True)
         if k not in self.cache:
             self.n += 1
-            members = [(uncps(n), int(v["int"]) if "int" in v else uncps(v["str"])) for n, v in e["members"]]
+            members = [(uncps(n), int(v["int"]) if "int" in v else tuple(int(x) for x in v["tuple"]) if "tuple" in v else uncps(v["str"]))
+                       for n, v in e["members"]]
             kw = {}
             if e["mixin"] == "int":
                 kw["type"] = int
@@ -750,6 +751,8 @@ def impl(case):
     import utype  # noqa
     from utype.utils import exceptions as exc
     from utype.utils.encode import JSONEncoder, JSONSerializer
+    if case.get("probe"):
+        return impl_probe(case)
     w = World()
     t = case["ty"]
     out = {}
@@ -842,7 +845,7 @@ def in_domain(t, v, depth=0) -> bool:
     if t == "str":
         return not any(0xD800 <= c <= 0xDFFF for c in e)      # text = Unicode scalar values
     if t == "int":
-        return abs(int(e)) < 10 ** 4000                        # CPython's int<->str digit limit (4300)
+        return abs(int(e)) < 10 ** 4300                        # CPython's int<->str digit limit: 4300 digits
     if t == "bytes":
         return valid_utf8(bytes(e))
     if t == "dec":
@@ -850,7 +853,7 @@ def in_domain(t, v, depth=0) -> bool:
             return False
         if e[0] == "inf":
             return True
-        return int(e[2]) < 10 ** 15
+        return int(e[2]) < 10 ** 15 and abs(int(e[3])) < 10 ** 17
     if t == "time":
         # CPython's time.fromisoformat reads an offset below one second ("+00:00:00.999999") as UTC: interpreter defect
         return e[3] % 1000 == 0 and (e[4] is None or int(e[4]) == 0 or abs(int(e[4])) >= 1000000)
@@ -904,6 +907,24 @@ def set_of_containers(t) -> bool:
         return set_of_containers(e[1])
     if tag == "data":
         return any(set_of_containers(fv["ty"]) for fv in views(t))
+    return False
+
+
+def nonjson_enum(t) -> bool:
+    """an Enum with a member value JSON cannot carry in its own type somewhere in the declaration"""
+    if isinstance(t, str):
+        return False
+    (tag, e), = t.items()
+    if tag == "enum":
+        return any("tuple" in v for _, v in e["members"])
+    if tag in ("list", "set", "tuplevar", "optional"):
+        return nonjson_enum(e)
+    if tag == "tuple":
+        return any(nonjson_enum(x) for x in e)
+    if tag == "dict":
+        return nonjson_enum(e[1])
+    if tag == "data":
+        return any(nonjson_enum(fv["ty"]) for fv in views(t))
     return False
 
 
@@ -976,6 +997,9 @@ def _key(d):
 
 
 def gen_enum(rng):
+    if rng.random() < 0.06:
+        # member values JSON cannot carry in their own type (known finding enum-non-json-value)
+        return {"enum": {"mixin": "none", "members": [[cps("ORIGIN"), {"tuple": ["0", "0"]}], [cps("UNIT"), {"tuple": ["1", "2"]}]][:rng.randint(1, 2)]}}
     mixin = rng.choice(["none", "none", "int", "str"])
     n = rng.randint(1, 4)
     names = rng.sample(["A", "B", "C", "red", "x", "INFO", "warn", "v1", "Alpha", "b"], n)
@@ -1050,6 +1074,8 @@ def gen_str(rng):
 
 def gen_float(rng):
     r = rng.random()
+    if rng.random() < 0.08:
+        return rng.choice([0.0, -0.0])
     if r < 0.45:
         return rng.choice([0.0, -0.0, 1.0, -1.0, 0.1, 0.5, 1e22, 1e21, 1e16, 1e-7, 1e-5, 5e-324, 2.2250738585072014e-308,
                            1.7976931348623157e308, float(2 ** 53), float(2 ** 53 + 2), 123456789.125, -3.141592653589793, 1 / 3])
@@ -1064,6 +1090,8 @@ def gen_float(rng):
 
 def gen_int(rng):
     r = rng.random()
+    if r < 0.01:
+        return rng.choice([10 ** 4299, -(10 ** 4300 - 1)])     # 4300 digits: the longest int CPython converts
     if r < 0.5:
         return rng.choice([0, 1, -1, 2, 255, 2 ** 31, -2 ** 31, 2 ** 53, 2 ** 53 + 1, -2 ** 63, 2 ** 64, 10 ** 30, -10 ** 100, 9007199254740991])
     if r < 0.8:
@@ -1071,8 +1099,15 @@ def gen_int(rng):
     return rng.randint(-10 ** 40, 10 ** 40)
 
 
+ZERO_AND_QUANTISED = ["0", "-0", "0.0", "0.00", "-0.0", "-0.00", "0E+3", "0E-7", "0.000", "1.50", "100.00", "-2.500", "10.0", "1E+1",
+                      "0.10", "12.340", "1000", "1.000E+3", "-0E+2", "0E-20", "99.99", "0.01"]
+
+
 def gen_dec(rng):
     r = rng.random()
+    if rng.random() < 0.15:
+        # zero in every spelling, and values as a decimal_places / round constraint leaves them
+        return Decimal(rng.choice(ZERO_AND_QUANTISED))
     if r < 0.05:
         return Decimal(rng.choice(["Infinity", "-Infinity"]))
     if r < 0.08:
@@ -1304,7 +1339,7 @@ def gen_proto(rng, depth):
         deps = [f["att"] for f in fields if f["role"] == "plain" and f["ty"] == tyname and not f["mode"]]
         if deps and (rng.random() < 0.5 or material == tyname):
             pick = rng.sample(deps, min(len(deps), rng.randint(2, 3) if material == tyname else rng.randint(1, 2)))
-            fields.append({"att": "total" if kind == "sum" else "label", "alias": rng.choice([None, None, "grandTotal" if kind == "sum" else "Label"]),
+            fields.append({"att": "total" if kind == "sum" else "label", "alias": rng.choice([None, None, "grandTotal" if kind == "sum" else "LabelText"]),
                            "alias_from": [], "ci": None, "role": "prop", "default": None, "mode": None, "expr": [kind, pick], "ty": tyname})
     if recursive:
         k = rng.choice(["opt", "list", "both"])
@@ -1314,6 +1349,17 @@ def gen_proto(rng, depth):
         if k in ("list", "both"):
             fields.append({"att": "replies", "alias": None, "alias_from": [], "ci": None, "role": "default", "default": {"list": []},
                            "mode": None, "rec": "list", "ty": {"list": {"self": None}}})
+    if rng.random() < 0.03 and not recursive:
+        # a declaration utype refuses (key conflicts): `declChecked` must refuse it too
+        f = rng.choice([g for g in fields if g.get("role") != "prop"])
+        others = [g["att"] for g in fields if g is not f and g.get("role") != "prop"]
+        k = rng.choice(["other", "case", "alias"])
+        if k == "other" and others:
+            f["alias_from"] = list(f.get("alias_from") or []) + [rng.choice(others)]
+        elif k == "case" and f.get("role") != "prop":
+            f["alias"], f["ci"] = f["att"].capitalize(), True
+        elif others and f.get("role") != "prop":
+            f["alias"] = rng.choice(others)
     return {"id": cid, "opts": opts, "fields": fields}
 
 
@@ -1338,6 +1384,7 @@ def is_recursive(proto):
 def gen_instance(rng, t, levels):
     """items of an instance of the (unrolled) rich class t, by attribute: {att: value or None when absent}; hidden values"""
     vals, hidden = {}, []
+    dep_atts = {a for fv in views(t) if fv["role"] == "prop" for a in fv["raw"]["expr"][1]}
     for fv in views(t):
         f, att, role = fv["raw"], fv["att"], fv["role"]
         ty = fv["ty"]
@@ -1366,6 +1413,8 @@ def gen_instance(rng, t, levels):
             vals[att] = f["default"]
             continue
         vals[att] = gen_value(rng, ty)
+        if ty == "int" and att in dep_atts and abs(int(vals[att]["int"])) > 10 ** 200:
+            vals[att] = {"int": str(rng.randint(-10 ** 40, 10 ** 40))}      # the sum stays far from the 4300-digit limit
     return vals, hidden
 
 
@@ -1409,8 +1458,11 @@ def gen_ops(rng, t, vals):
             if len(deps) > 1:
                 chosen = deps + [fv for fv in chosen if fv not in deps][:1]
         pairs = []
+        dep_atts = {a for p in props for a in p["raw"]["expr"][1]}
         for fv in chosen:
             x = gen_value(rng, fv["ty"])
+            if fv["ty"] == "int" and fv["att"] in dep_atts and abs(int(x["int"])) > 10 ** 200:
+                x = {"int": str(rng.randint(-10 ** 40, 10 ** 40))}
             pairs.append([fv["att"], rng.choice([fv["att"], fv["name"]]), x])
             vals[fv["att"]] = x
         ops.append([kind, pairs])
@@ -1450,6 +1502,99 @@ def strip_hidden(v):
     if tag == "data":
         return {"data": [[n, strip_hidden(x)] for n, x in e]}
     return {tag: e}
+
+
+
+# ---- parse-only probes: look-alike text delivered to typed fields (ties the decoders outside a round trip) ----------
+# only strings on which the concrete builtins P0 and CPython agree by construction (ISO forms and non-dates)
+PROBE_STRS = ["", "Z", "GMT", "UTC", "TZD", " ", "abc", "null", "None", "NIL", "2020-01-02", "2020-02-30", "2020-01-02T03:04:05",
+              "2020-01-02T03:04:05Z", "GMT2020-01-02T03:04:05", "2020-01-02T03:04:05.000007-05:30", " 2020-01-02 ", "03:04:05", "03:04:05.123+02:00",
+              "P1DT00H00M00S", "-P0DT00H00M01.000001S", "0", "0.00", "-0.0", "0E+3", "1.50", "Infinity", "NaN", "  12  ", "true", "1", "f",
+              "00000000-0000-0000-0000-000000000005", "not-a-uuid"]
+PROBE_TYPES = ["date", "datetime", "time", "delta", "dec", "uuid", "none", "bytes", "str", {"optional": "date"}, {"optional": "dec"},
+               {"dict": ["int", "int"]}, {"list": "datetime"}]
+
+
+def gen_probe(rng):
+    t = rng.choice(PROBE_TYPES)
+    s = rng.choice(PROBE_STRS)
+    leaf = {"s": cps(s)}
+    if isinstance(t, dict) and "dict" in t:
+        tree = {"o": [[cps(s), {"i": "1"}]]}
+    elif isinstance(t, dict) and "list" in t:
+        tree = [leaf]
+    else:
+        tree = leaf if rng.random() < 0.9 else rng.choice([None, True, {"i": "0"}, {"f": enc_f(0.0)}])
+    return {"probe": True, "ty": {"data": [[cps("f"), t]]}, "tree": {"o": [[cps("f"), tree]]}, "cfg": FIXED}
+
+
+def plain_tree(tr):
+    if tr is None or isinstance(tr, bool):
+        return tr
+    if isinstance(tr, list):
+        return [plain_tree(x) for x in tr]
+    if "i" in tr:
+        return int(tr["i"])
+    if "f" in tr:
+        return dec_f(tr["f"])
+    if "s" in tr:
+        return uncps(tr["s"])
+    return {uncps(k): plain_tree(x) for k, x in tr["o"]}
+
+
+def probe_prims(tr, tbl=None):
+    tbl = tbl if tbl is not None else {"decOfStr": [], "uuidOfStr": [], "decOfFloat": [], "floatParses": []}
+    if isinstance(tr, list):
+        for x in tr:
+            probe_prims(x, tbl)
+    elif isinstance(tr, dict):
+        if "s" in tr:
+            s = uncps(tr["s"])
+            for cand in {s, s.strip()}:
+                try:
+                    tbl["decOfStr"].append([cps(cand), enc_d(Decimal(cand))])
+                except Exception:
+                    tbl["decOfStr"].append([cps(cand), None])
+            try:
+                tbl["uuidOfStr"].append([cps(s), str(UUID(s).int)])
+            except Exception:
+                tbl["uuidOfStr"].append([cps(s), None])
+            # `float(s)` on the text as to_datetime / to_timedelta see it (cleaned / as given)
+            for cand in {s, s.replace("GMT", "").replace("UTC", "").replace("TZD", "").rstrip("Z").strip(), "1970-01-01 " + s}:
+                try:
+                    float(cand)
+                    tbl["floatParses"].append([cps(cand), True])
+                except ValueError:
+                    tbl["floatParses"].append([cps(cand), False])
+        elif "f" in tr:
+            f = dec_f(tr["f"])
+            tbl["decOfFloat"].append([tr["f"], enc_d(Decimal(str(f)))])
+        elif "o" in tr:
+            for k, x in tr["o"]:
+                try:
+                    tbl["decOfStr"].append([cps(uncps(k)), enc_d(Decimal(uncps(k)))])
+                except Exception:
+                    tbl["decOfStr"].append([cps(uncps(k)), None])
+                probe_prims(x, tbl)
+    return tbl
+
+
+def impl_probe(case):
+    from utype.utils import exceptions as exc
+    w = World()
+    t = case["ty"]
+    cls = w.data(t["data"])
+    text = json.dumps(plain_tree(case["tree"]))
+    try:
+        back = cls.__from__(text)
+    except exc.ParseError:
+        return {"init": "ok", "probe": True, "parse": "perr"}
+    except Exception as e:
+        return {"init": "ok", "probe": True, "parse": "escape:" + type(e).__name__}
+    try:
+        return {"init": "ok", "probe": True, "parse": "ok", "back": w.desc(t, back)}
+    except Exception as e:
+        return {"init": "ok", "probe": True, "parse": "ok", "back": "badtype:" + str(e)[:60]}
 
 
 def gen_case(rng, depth=2):
@@ -1756,7 +1901,7 @@ class C14(Check):
     driver = "C14"
     impl = "harness.c14:impl"
     case_timeout = 20.0
-    budget = {"quick": 8000, "thorough": 150000}
+    budget = {"quick": 5000, "thorough": 120000}
     search_budget = {"quick": 3000, "thorough": 20000}
     rule = ("seeded data-class declarations x boundary-rich instances x encoder entry point, in three equal streams: (1) one field "
             "of a random type; (2) 1-3 plain required fields; (3) the class side - Field(alias) / alias_generator camel|pascal / "
@@ -1791,7 +1936,9 @@ class C14(Check):
         depth = 3 if tier == "thorough" else 2
         # one-field cases (sharp replays) and multi-field cases
         for i in range(n):
-            if i % 3 == 0:
+            if i % 12 == 11:
+                out.append(gen_probe(rng))      # look-alike text into typed fields: model of the decoders vs the real ones
+            elif i % 3 == 0:
                 t = gen_type(rng, depth - 1)
                 out.append(one_field(t, gen_value(rng, t), rng.choice(["encoder", "serializer"])))
             elif i % 3 == 1:
@@ -1802,6 +1949,8 @@ class C14(Check):
         return out
 
     def model_line(self, case):
+        if case.get("probe"):
+            return {"cfg": case.get("cfg", FIXED), "ty": model_type(case["ty"]), "parse_tree": case["tree"], "prims": probe_prims(case["tree"])}
         val = strip_hidden(case["val"])
         return {"cfg": case.get("cfg", FIXED), "ty": model_type(case["ty"]), "val": val, "prims": prim_table(case["ty"], val)}
 
@@ -1814,10 +1963,26 @@ class C14(Check):
         return d
 
     def _compare(self, case, io, mo):
+        if case.get("probe"):
+            if not isinstance(mo, dict) or "parse" not in mo:
+                return f"driver: {str(mo)[:200]}"
+            if mo["parse"].startswith("unmodelled"):
+                return None
+            ip = "perr" if io.get("parse", "").startswith("escape") else io.get("parse")
+            if mo["parse"] != ip:
+                return f"probe: parse outcome impl={io.get('parse')} model={mo['parse']}"
+            if ip == "ok" and canon_val(mo["back"]) != io.get("back"):
+                return "probe: parsed value differs"
+            return None
         if not isinstance(mo, dict) or "enc" not in mo:
             return f"driver: {str(mo)[:200]}"
         if io.get("init") != "ok":
-            return None          # not constructible: no instance to talk about
+            # not constructible: no instance to talk about - but a declaration utype refuses for a key conflict must
+            # fail the Lean `declChecked` as well (and one it accepts must pass it: the domain cross-check below)
+            if "ConfigError" in str(io.get("init")) and "conflict" in str(io.get("init")) and mo.get("declChecked") is True \
+                    and is_rich(case["ty"]) and '"id"' not in json.dumps(case["ty"]["data"]["fields"]):     # (no nested class that could be the refused one)
+                return f"utype refuses the declaration ({io['init'][:90]}) but declChecked holds"
+            return None
         if canon_val(mo["echo"]) != canon_val(case["val"]):
             return "driver decoded a different instance"
         if "state" in io:
@@ -1832,7 +1997,8 @@ class C14(Check):
             if io["decl"]["dfs"] != class_opts(case["ty"])["dataFirst"]:
                 return "lookup strategy read differently"
         dom = in_domain(case["ty"], case["val"])
-        if bool(mo["inDomain"]) != dom:
+        # the Lean domain leaves the known-defect Enum declarations out (EnumDecl.wf); the stated domain does not
+        if not nonjson_enum(case["ty"]) and bool(mo["inDomain"]) != dom:
             return f"domain predicates differ: lean inDomain={mo['inDomain']} python in_domain={dom}"
         if bool(mo["hasInf"]) != has_inf(case["val"]) or bool(mo["setOfContainers"]) != set_of_containers(case["ty"]):
             return "known-defect predicates differ between Lean and the harness"
@@ -1862,7 +2028,7 @@ class C14(Check):
 
     # -- the property, on what the implementation did ----------------------------------------------
     def spec(self, case, io, mo):
-        if io.get("init") != "ok":
+        if io.get("init") != "ok" or case.get("probe"):
             return None
         # the instance as it is (after any mutation through the public API)
         if not in_domain(case["ty"], io.get("state") or case["val"]):
@@ -1886,15 +2052,19 @@ class C14(Check):
         bad = [(fields[json.dumps(n)], w) for n, w in io.get("bad_fields", [])]
         if not bad:
             return None
-        if not all((w == "std" and has_inf(fv)) or (w == "parse" and set_of_containers(ft)) for (ft, fv), w in bad):
+        if not all((w == "std" and has_inf(fv)) or (w == "parse" and (set_of_containers(ft) or nonjson_enum(ft))) for (ft, fv), w in bad):
             return None
         if "not standard JSON" in why and any(w == "std" for _, w in bad):
             return "float-inf-nonstandard-json"
-        if "parsing the encoded text back failed" in why and any(w == "parse" for _, w in bad):
+        if "parsing the encoded text back failed" in why and any(w == "parse" and set_of_containers(ft) for (ft, _), w in bad):
             return "set-of-tuples-unhashable"
+        if "parsing the encoded text back failed" in why and any(w == "parse" and nonjson_enum(ft) for (ft, _), w in bad):
+            return "enum-non-json-value"
         return None
 
     def neighbours(self, case, rng):
+        if case.get("probe"):
+            return []
         out = []
         t, v = case["ty"], case["val"]
         # each field alone, with its value and with fresh values of the same type
@@ -1913,13 +2083,17 @@ class C14(Check):
         return out
 
     def key(self, case, io):
-        if trivial(case["ty"]) or io.get("init") != "ok":
+        if case.get("probe") or trivial(case["ty"]) or io.get("init") != "ok":
             return None
         cl = set()
         leaf_classes(case["ty"], case["val"], cl)
         return shape(case["ty"]) + "|" + ",".join(sorted(cl))
 
     def distribution(self, case, io):
+        if case.get("probe"):
+            return "probe/" + shape(case["ty"]["data"][0][1])
+        if io.get("init") != "ok":
+            return "refused/" + str(io.get("init"))[:40]
         cl = set()
         leaf_classes(case["ty"], case["val"], cl)
         heads = sorted({c.split(":")[0] for c in cl})
